@@ -231,7 +231,11 @@ def bit_structured(maxbits):
     sparse = st.lists(st.integers(0, maxbits - 1), min_size=1, max_size=4).map(lambda bits: sum({1 << b for b in bits}))
     dense = st.tuples(st.integers(8, maxbits), st.lists(st.integers(0, maxbits - 1), min_size=1, max_size=4)).map(
         lambda t: ((1 << t[0]) - 1) & ~sum({1 << b for b in t[1]}))
-    return st.one_of(repeated, repeated, sparse, dense)
+    # j * (2^m - 1) / k: the repeating expansions of j/k (0x5555.., 0xaaaa.., 0x3333.., 0x2492..): small multiples of these
+    # (3e, 5e, ...) fall just below a power of two
+    frac = st.builds(lambda k, j, m, d: max(0, ((1 << m) - 1) // k * (1 + j % (k - 1)) + d), st.sampled_from([3, 3, 3, 5, 7, 9, 15, 17]),
+                     st.integers(0, 16), st.integers(8, maxbits), st.sampled_from([0, 0, 1, -1]))
+    return st.one_of(repeated, frac, frac, sparse, dense)
 
 
 def scalars(n):
